@@ -23,7 +23,7 @@ RULE = (
     "subject (every transform, distribution, flow) x config (<=1 deviation; thorough <=2) x pattern {init, pat1} x mode {eval, train} x "
     "argument kind {fresh, non-contiguous view, slice of a larger tensor, requires_grad leaf, non-leaf with grad history} (applied to "
     "inputs and context) x ALL call histories of length <=2 (thorough <=3) over {forward(x1), forward(x2), inverse(y1)} resp. "
-    "{log_prob(x1), log_prob(x2), sample(2), sample_and_log_prob(2), transform_to_noise(x1)}, each alphabet plus the first call with "
+    "{log_prob(x1), log_prob(x2), sample(2), sample_and_log_prob(1), transform_to_noise(x1)}, each alphabet plus the first call with "
     "arguments in the other floating dtype (may raise; must not change state). In eval mode every result is also compared bitwise with the "
     "same call made as the only call on a freshly built object (order independence). Non-trivial = history of length >=2 "
     "or a non-fresh argument kind."
@@ -266,7 +266,7 @@ def run_dist_case(dname, cfg, pname, seed, tier, res=None, only=None):
             "lp1": ((lambda x, c=None: obj.log_prob(x, context=c)), [x1] + ([c1] if hasc else [])),
             "lp2": ((lambda x, c=None: obj.log_prob(x, context=c)), [x2] + ([c2] if hasc else [])),
             "sample": ((lambda c=None: obj.sample(2, context=c)), ([c2] if hasc else [])),
-            "salp": ((lambda c=None: obj.sample_and_log_prob(2, context=c)), ([c2] if hasc else [])),
+            "salp": ((lambda c=None: obj.sample_and_log_prob(1, context=c)), ([c2] if hasc else [])),
         }
         table["lp32"] = ((lambda x, c=None: obj.log_prob(x, context=c)), [_other(x1)] + ([_other(c1)] if hasc else []))
         if d.is_flow:
